@@ -109,3 +109,27 @@ def absr(x):
 @spec
 def opt_min(a, b):
     return ite(is_none(a), b, ite(is_none(b), a, ite(some(a) <= some(b), a, b)))
+
+
+# ---------------------------------------------------------------- C06: snapshot helpers
+
+@spec
+def clampf(x, lo, hi):
+    return ite(x < lo, lo, ite(x > hi, hi, x))
+
+
+@spec
+def round6(x):
+    """round(x, 6): the engine's uninterpreted `round_nd(x, 6)`; the facts assumed about it are listed in c06_snapshot.ROUND_FACTS"""
+    return round(x, 6)
+
+
+@spec
+def edge_id_of(src, dst, rel):
+    return ite(src <= dst, src + '__' + dst + '__' + rel, dst + '__' + src + '__' + rel)
+
+
+@spec
+def san_weight(w, wmin, wmax, eps):
+    """the weight `_sanitize_gel_for_write` stores for an input weight w"""
+    return ite(absr(round6(clampf(w, wmin, wmax))) < eps, 0.0, round6(clampf(w, wmin, wmax)))
